@@ -177,7 +177,7 @@ fn pubkey_of<C: Crypto>(crypto: &C, sk: &CanonPkcSecretKey) -> Vec<u8> {
 fn make_base() -> Base {
     let crypto = test_only_crypto();
     let mut roots = Vec::new();
-    for r in 0..3u64 {
+    for r in 0..6u64 {
         let mut buf = vec![0u8; MAX_CERT_TLV_AND_ASN1_LEN];
         let mut g = RcacGenerator::new(&mut buf);
         let (privkey, cert) = g.generate(&crypto, 10 + r, VALID_FOREVER).unwrap();
@@ -1068,12 +1068,149 @@ fn run_line(base: &Base, line: &str, out: &mut String) {
     }
 }
 
-fn generate(_tier: &str, seed: u64) -> Vec<String> {
-    let _ = Rng::new(seed);
+/// Branch stream: hand-made cases, one or more per arm of the model (names in the comments).
+fn branch_cases() -> Vec<(&'static str, &'static str)> {
     vec![
-        "H 1".to_string(),
-        "S 2 1011 Ap:60:5,Cp:0,Rp:1,Np:77,K2:0,T,X".to_string(),
+        // the two flows, committed
+        ("1011", "Ap:60:5,Cp:0,Rp:1,Np:77,K2:0,T,X"),
+        ("0111", "A1:60:5,C1:1,U1:88,L1:5:0,K1:0,T,X"),
+        // rolled back by each of the four ways, PASE flow with staged ACL + networks
+        ("1011", "Ap:60:5,Cp:0,Rp:1,Np:77,Wp:9:6,Lp:5:0,T,Cp:0"),
+        ("1011", "Ap:60:5,Cp:0,Rp:1,Np:77,Wp:9:6,Lp:5:0,Ap:0:0,Cp:0"),
+        ("1011", "Ap:60:5,Cp:0,Rp:1,Np:77,Wp:9:6,Lp:5:0,Vp,Cp:0"),
+        ("1011", "Ap:60:5,Cp:0,Rp:1,Np:77,Wp:9:6,Lp:5:0,X,Cp:0"),
+        ("1111", "Ap:60:5,Cp:0,Rp:1,Np:77,Dp:7,Wp:9:6,A1:0:0"),
+        ("1111", "Ap:60:5,Cp:0,Rp:1,Np:77,Dp:7,Wp:9:6,V1"),
+        // UpdateNOC flow rolled back: the fabric is reloaded from the store
+        ("0111", "A1:60:5,C1:1,U1:88,L1:5:0,W1:9:-,T"),
+        ("0111", "A1:60:5,C1:1,U1:88,L1:5:0,W1:9:-,A1:0:0"),
+        ("0111", "A1:60:5,C1:1,U1:88,L1:5:0,W1:9:-,V1"),
+        ("0111", "A1:60:5,C1:1,U1:88,L1:5:0,W1:9:-,X"),
+        ("0121", "A1:60:5,C1:1,U1:88,A2:0:0"),
+        // store failures and power loss inside CommissioningComplete
+        ("1011", "Ap:60:5,Cp:0,Rp:1,Np:77,K2:1,T,X"),
+        ("1011", "Ap:60:5,Cp:0,Rp:1,Np:77,K2:1,K2:0,T"),
+        ("1011", "Ap:60:5,Cp:0,Rp:1,Np:77,Wp:9:6,K2:2,T,X"),
+        ("1011", "Ap:60:5,Cp:0,Rp:1,Np:77,Wp:9:6,K2:2,K2:0"),
+        ("1011", "Ap:60:5,Cp:0,Rp:1,Np:77,Wp:9:6,Q2:0"),
+        ("1011", "Ap:60:5,Cp:0,Rp:1,Np:77,Wp:9:6,Q2:1"),
+        ("1011", "Ap:60:5,Cp:0,Rp:1,Np:77,Wp:9:6,Q2:2"),
+        ("1111", "Ap:60:5,Cp:0,Rp:1,Np:77,K2:2,T"),
+        ("1111", "Ap:60:5,Cp:0,Rp:1,Np:77,Q2:1"),
+        ("0111", "A1:60:5,C1:1,U1:88,K1:1,T"),
+        ("0111", "A1:60:5,C1:1,U1:88,W1:9:-,K1:2,T"),
+        ("0111", "A1:60:5,C1:1,U1:88,W1:9:-,Q1:1"),
+        // wrong order / repetition
+        ("1011", "Ap:60:5,Np:77,Cp:1,Cp:0,Cp:0,Rp:0,Rp:0,Np:77,Rp:1,Up:5,Np:78,Np:79"),
+        ("1011", "Ap:60:5,Rp:1,Np:77,Cp:0,Np:77,Np:78,Cp:0,Rp:2"),
+        ("0111", "A1:60:5,U1:88,C1:1,C1:0,C1:1,U1:88,U1:89,R1:1,N1:77"),
+        ("0111", "A1:60:5,C1:0,U1:88,R1:1,U1:88,N1:77,U2:88,K1:0,K2:0"),
+        ("0111", "A1:60:5,R1:1,C1:1,U1:88"),
+        // wrong context
+        ("1011", "Ap:60:5,C1:0,R1:1,N1:77,W1:9:-,D1:7,K1:0,A1:60:1,A1:0:0,K1:0,V1"),
+        ("1011", "Ap:60:5,Cp:0,Rp:1,Np:77,Kp:0,K1:0,K3:0,C1:0,W1:3:-,K2:0"),
+        ("0121", "A1:60:5,C2:1,U2:88,W2:9:-,K2:0,A2:60:1,C1:1,U1:88,K1:0"),
+        ("0011", "A1:60:5,Ap:60:5,Cp:0,Ap:0:0,Cp:0,P,Cp:0,Ap:60:1,Cp:0"),
+        // no fail-safe
+        ("1011", "Cp:0,Rp:1,Np:7,Kp:0,K1:0,Wp:3:-,Dp:3,U1:5,Vp,Cp:0"),
+        // busy: CASE arming with an open window; access: sessions of fabrics that do not exist
+        ("1011", "A1:60:5,A2:60:5,C3:0,L2:5:0,V1,A1:60:5,C1:0"),
+        // conflict, networks bounds / not found
+        ("1021", "Ap:60:5,Cp:0,Rp:1,Np:77,Rp:2,Wp:1:-,Wp:2:-,Wp:3:-,Wp:4:-,Wp:2:7,Dp:9,Dp:2,Wp:4:-"),
+        ("1021", "Ap:60:5,Cp:0,Rp:0,Np:77"),
+        // AddNOC over CASE: the context moves to the new fabric
+        ("0111", "A1:60:5,C1:0,R1:2,N1:77,C1:0,K1:0,L1:5:0,L2:6:0,K2:0,T"),
+        ("0111", "A1:60:5,C1:0,R1:2,N1:77,L2:6:0,T"),
+        // writes outside the fail-safe context are stored at once (also with a failing store)
+        ("1011", "L1:5:0,Ap:60:5,L1:6:0,Cp:0,Rp:1,Np:77,L1:7:0,L2:8:0,T"),
+        ("1011", "L1:5:1,X"),
+        ("1011", "Ap:60:5,L1:5:1,T"),
+        // table full: four commissioning rounds, then a fifth
+        ("1011", "Ap:60:5,Cp:0,Rp:1,Np:71,K2:0,P,Ap:60:5,Cp:0,Rp:2,Np:72,K3:0,P,Ap:60:5,Cp:0,Rp:3,Np:73,X,P,Ap:60:5,Cp:0,Rp:3,Np:73,Ap:0:0"),
+        // restart in the middle, new PASE, second round reuses the index
+        ("1011", "Ap:60:5,Cp:0,Rp:1,Np:77,X,P,Ap:60:5,Rp:1,Np:78,Cp:0,Np:78,K2:0"),
+        // revoke without fail-safe, timer without fail-safe
+        ("1011", "Vp,T,V1,T"),
+        ("0011", "T,X,T"),
     ]
+}
+
+fn generate(tier: &str, seed: u64) -> Vec<String> {
+    let thorough = tier == "thorough";
+    let mut rng = Rng::new(seed);
+    let mut cases: Vec<String> = Vec::new();
+    let mut id = 0u64;
+    let mut nid = || {
+        id += 1;
+        id
+    };
+    cases.push(format!("H {}", nid()));
+    for (init, ops) in branch_cases() {
+        cases.push(format!("S {} {} {}", nid(), init, ops));
+    }
+    // exhaustive: every sequence over a 7-command alphabet, followed by one way of rolling back
+    let prof_p: [&str; 7] = ["Ap:60:1", "Cp:0", "Rp:1", "Np:77", "Wp:9:2", "L2:5:0", "K2:0"];
+    let prof_c: [&str; 7] = ["A1:60:1", "C1:1", "U1:88", "L1:5:0", "W1:9:2", "K1:0", "R1:1"];
+    let tails_p = ["T", "Ap:0:0", "Vp", "X", "A1:0:0", "Q2:1", "Q2:0"];
+    let tails_c = ["T", "A1:0:0", "V1", "X", "Q1:1", "A2:0:0", "Q1:0"];
+    let mut count = 0usize;
+    let mut exhaustive = |alpha: &[&str; 7], tails: &[&str; 7], init: &str, maxlen: usize, cases: &mut Vec<String>, nid: &mut dyn FnMut() -> u64| {
+        for len in 1..=maxlen {
+            let total = 7usize.pow(len as u32);
+            for mut code in 0..total {
+                let mut v = Vec::new();
+                for _ in 0..len {
+                    v.push(alpha[code % 7]);
+                    code /= 7;
+                }
+                v.push(tails[count % 7]);
+                // after the rollback, a probe that the node is back to normal: arm again, CSR
+                v.push(if count % 2 == 0 { alpha[0] } else { alpha[1] });
+                count += 1;
+                cases.push(format!("S {} {} {}", nid(), init, v.join(",")));
+            }
+        }
+    };
+    exhaustive(&prof_p, &tails_p, "1011", if thorough { 5 } else { 4 }, &mut cases, &mut nid);
+    exhaustive(&prof_c, &tails_c, "0111", if thorough { 5 } else { 3 }, &mut cases, &mut nid);
+    // random, all sessions and all operations
+    let n_rand = if thorough { 20000 } else { 1500 };
+    for _ in 0..n_rand {
+        let init = format!("{}{}{}{}", rng.below(2), rng.below(2), 1 + rng.below(2), if rng.chance(4, 5) { 1 } else { 0 });
+        let len = rng.range(5, 14);
+        // a commissioner that mostly follows the script, mixed with arbitrary commands
+        let main = if rng.chance(2, 3) { 'p' } else { '1' };
+        let mut v: Vec<String> = Vec::new();
+        let sess = |rng: &mut Rng, main: char| -> char {
+            if rng.chance(3, 5) {
+                main
+            } else {
+                *rng.pick(&['p', '1', '2', '3'])
+            }
+        };
+        for _ in 0..len {
+            let s = sess(&mut rng, main);
+            let t = match rng.below(40) {
+                0..=5 => format!("A{}:{}:{}", s, if rng.chance(1, 5) { 0 } else { 60 }, rng.below(4)),
+                6..=9 => format!("C{}:{}", s, if rng.chance(1, 3) { 1 } else { 0 }),
+                10..=13 => format!("R{}:{}", s, rng.below(4)),
+                14..=17 => format!("N{}:{}", s, 70 + rng.below(5)),
+                18..=19 => format!("U{}:{}", s, 80 + rng.below(5)),
+                20..=22 => format!("L{}:{}:{}", s, 1 + rng.below(6), if rng.chance(1, 8) { 1 } else { 0 }),
+                23..=25 => format!("W{}:{}:{}", s, 1 + rng.below(5), if rng.chance(1, 2) { "-".to_string() } else { rng.below(9).to_string() }),
+                26 => format!("D{}:{}", s, rng.pick(&[7u64, 1, 2, 3])),
+                27..=31 => format!("K{}:{}", if rng.chance(1, 2) { '2' } else { s }, if rng.chance(1, 3) { 1 + rng.below(2) } else { 0 }),
+                32 => format!("Q{}:{}", if rng.chance(1, 2) { '2' } else { s }, rng.below(3)),
+                33 => format!("V{}", s),
+                34..=35 => "T".to_string(),
+                36 => "X".to_string(),
+                _ => "P".to_string(),
+            };
+            v.push(t);
+        }
+        cases.push(format!("S {} {} {}", nid(), init, v.join(",")));
+    }
+    cases
 }
 
 fn main() {
